@@ -149,6 +149,21 @@ def field_writers(facts, adt):
     return out
 
 
+def rebuild_keeps(ctx, x, f, got):
+    """writer x = (entry path, way) of field f is a builder-style method that REBUILDS the value (`Self { f: self.f, g: new }`,
+    `Self { g: new, ..self }`, possibly through a private constructor helper) and leaves f at the receiver's value: such a method
+    writes only the fields whose value differs -- decided on the evaluation of the method"""
+    eb = ctx.facts.by_did.get(getattr(ctx.facts, '_frame_entry_did', {}).get(x[0]))
+    if eb is None or x[1] not in ('ctor', 'ctor-base') or any(y[0] == x[0] and y[1] not in ('ctor', 'ctor-base') for y in got):
+        return False
+    try:
+        from .speclib import fld, S as _S
+        rt = ctx.evaluate(eb).ret_term
+        return rt is not None and fld(rt, f) is fld(_S('self'), f)
+    except Exception:
+        return False
+
+
 def check_frame(ctx, pfx, adt, table, why):
     """obligation per field: effective writers are a subset of the table (entry path -> admissible ways)"""
     st = ctx.facts.structs.get(adt)
@@ -182,16 +197,8 @@ def check_frame(ctx, pfx, adt, table, why):
             # explicit API (a setter the user has to invoke): it changes no existing behaviour.  Trait methods (dispatched from
             # generic code), functions of the reference API (their behaviour is what users already rely on) and anything the
             # existing code reaches are implicit writers.
-            if implicit and eb is not None and x[1] in ('ctor', 'ctor-base') and not any(y[0] == x[0] and y[1] not in ('ctor', 'ctor-base') for y in got):
-                # a builder-style method that REBUILDS the value (`Self { f: self.f, g: new }`, possibly through a private constructor
-                # helper) writes only the fields whose value differs from the receiver's: decided on the evaluation of the method
-                try:
-                    from .speclib import fld, S as _S
-                    rt = ctx.evaluate(eb).ret_term
-                    if rt is not None and fld(rt, f) is fld(_S('self'), f):
-                        continue
-                except Exception:
-                    pass
+            if implicit and rebuild_keeps(ctx, x, f, got):
+                continue
             (extra if implicit else explicit).append(x)
         ctx.check(pfx + '.frame', A, f, not extra, expected='written only by %s (or by new public API that no existing code calls)' % sorted(allowed),
                   found='also written by %s' % extra if extra else '%s%s' % (sorted(x for x in got if x not in explicit), '; explicit new API: %s' % explicit if explicit else ''),
